@@ -158,15 +158,21 @@ impl ErrorMessages {
             // Spans are made of the offsets of tokens, which count bytes of the source
             // text. `ErrorMessage::span`, the line table of the source and the report
             // count characters, which is the same thing for ASCII text only.
+            // An offset inside a character counts as the end of that character, and one
+            // past the text as the end of the text: a span that is slightly off (e.g. one rebased
+            // into an escaped string) still gets a location instead of failing the
+            // assertion below.
             let text = source.text();
-            let to_char = |byte: usize| text.get(..byte).map(|s| s.chars().count());
-            if let (Some(start), Some(end)) = (to_char(span.start), to_char(span.end)) {
-                e.span = Some(Span {
-                    start,
-                    end,
-                    source_id: span.source_id,
-                });
-            }
+            let to_char = |byte: usize| {
+                text.char_indices()
+                    .take_while(|(index, _)| *index < byte)
+                    .count()
+            };
+            e.span = Some(Span {
+                start: to_char(span.start),
+                end: to_char(span.end),
+                source_id: span.source_id,
+            });
             e.location = e.compose_location(source);
 
             assert!(
